@@ -60,7 +60,7 @@ def native_bytes(c, n):
     opts = [{'preset': 'quick_xml_de'}, {'preset': 'serde_xml_rs', 'sort': 'XmlName', 'derive': ''}]
     for d in gate.mutated_corpus(c.seed + 1, n):
         for extra in ({}, {'bufcap': 1}, {'config': {'trim_text': True, 'expand_empty_elements': True, 'check_end_names': False}}):
-            nat = c.replay.ask(dict({'op': 'render', 'docs': [d], 'options': opts}, **extra))
+            nat = c.replay.ask(dict({'op': 'render', 'docs': [d], 'options': opts}, **extra), timeout=20)
             if 'panic' in nat or 'crash' in nat:
                 c.add_violation('native panic on a byte string', dict(doc=d, **extra), {'native': nat}, role='native-bytes'); return
             c.extra['native_validations'] = c.extra.get('native_validations', 0) + 1
